@@ -710,6 +710,18 @@ func (x *Exec) evalInv(fr *Frame, st *State, li *loopInfo, lu *LoopUnit, over ma
 			args = append(args, top.oldVals[sp.Index])
 		case "local":
 			args = append(args, x.resolveLocal(fr, st, li, sp.Local, over))
+		case "rangeidx":
+			var ph *ssa.Phi
+			for _, ins := range li.header.Instrs {
+				if p, ok := ins.(*ssa.Phi); ok && p.Comment == "rangeindex" {
+					ph = p
+				}
+			}
+			if ph == nil {
+				x.fatal("%s: rangeidx used in a loop that is not a range-over-slice loop", fr.fn.Name())
+			}
+			pv := x.evalPure(fr, st, ph, li.header, over, 0)
+			args = append(args, Val{T: types.Typ[types.Int], L: []*Term{x.tb.Add(pv.L[0], x.tb.BVInt(1, 64))}})
 		}
 	}
 	res := x.runSpec2(lu.Fn, st, x.entry, args)
@@ -888,7 +900,7 @@ func (x *Exec) assertPoints(fr *Frame) *assertMap {
 		if first == nil {
 			x.fatal("%s: no instruction for the statement anchoring assertion %q", fr.fn.Name(), au.C.Anchor)
 		}
-		if au.C.When == "before" {
+		if au.C.When != "after" {
 			am.before[first] = append(am.before[first], au)
 		} else {
 			am.after[last] = append(am.after[last], au)
